@@ -292,8 +292,11 @@ def finish(prop, tier, seed, res, wall_s):
         for m in res.machinery_errors:
             log('MACHINERY: ' + m)
         rc = 2
-    for c in new:
+    for n_printed, c in enumerate(sorted(new, key=lambda c: (len(c['class']), c['class'], c['mode']))):
         rc = 1
+        if n_printed >= 12:
+            log('  ... and %d more violation classes (see evidence file)' % (len(new) - 12))
+            break
         w = c['witnesses'][0] if c['witnesses'] else {}
         rp = write_replay(prop, c, w)
         print('VIOLATION property=%s replay=%s' % (prop, rp))
